@@ -110,7 +110,18 @@ func goDetectorSpec(fn *ssa.Function) detectorSpec {
 				}
 			}
 			if sl, ok := strip(call.Common().Args[0]).(*ssa.Slice); ok && strip(sl.X) == ssa.Value(val) && sl.Low == nil && sl.High != nil {
+				// the bound is min(K, len(value)) in either spelling: a phi of the two, or builtin min
+				var bounds []ssa.Value
 				for _, o := range origins(sl.High) {
+					if args, isMin, ok := minMaxCall(o); ok && isMin {
+						for _, a := range args {
+							bounds = append(bounds, origins(a)...)
+						}
+					} else {
+						bounds = append(bounds, o)
+					}
+				}
+				for _, o := range bounds {
 					if k, ok := constInt(o); ok {
 						d.Window = k
 					} else if !isLenVal(o) {
@@ -123,7 +134,7 @@ func goDetectorSpec(fn *ssa.Function) detectorSpec {
 		case "strings.Contains", "bytes.Index", "strings.Index":
 			d.Domain = "text"
 			d.Unrecognised = append(d.Unrecognised, "search through "+n)
-		case "builtin.len":
+		case "builtin.len", "builtin.min":
 		default:
 			d.Unrecognised = append(d.Unrecognised, "call "+n)
 		}
